@@ -22,6 +22,23 @@ extern "C" void* __asan_region_is_poisoned(void* beg, size_t size);
 #endif
 #endif
 
+// ThreadSanitizer flavour: SimFS is harness state shared by the simulated threads (which the scheduler serialises without
+// TSan knowing). Its memory accesses are excluded from race detection, whatever instrumented template copies the linker
+// picked for its containers.
+#ifdef SIM_TSAN
+extern "C" void AnnotateIgnoreReadsBegin(const char*, int);
+extern "C" void AnnotateIgnoreReadsEnd(const char*, int);
+extern "C" void AnnotateIgnoreWritesBegin(const char*, int);
+extern "C" void AnnotateIgnoreWritesEnd(const char*, int);
+struct TsanIgnore {
+    TsanIgnore() { AnnotateIgnoreReadsBegin(__FILE__, __LINE__); AnnotateIgnoreWritesBegin(__FILE__, __LINE__); }
+    ~TsanIgnore() { AnnotateIgnoreWritesEnd(__FILE__, __LINE__); AnnotateIgnoreReadsEnd(__FILE__, __LINE__); }
+};
+#define SIM_IGNORE TsanIgnore tsan_ignore_guard
+#else
+#define SIM_IGNORE do {} while (0)
+#endif
+
 namespace simfs {
 
 static unsigned char g_is_sim[65536];  // POD: usable before any constructor has run
@@ -223,6 +240,7 @@ static FILE* real_fopen(const char* p, const char* m, bool is64) {
 
 static FILE* sim_fopen(const char* path, const char* mode, bool is64) {
     if (!is_sim_path(path)) return real_fopen(path, mode, is64);
+    SIM_IGNORE;
     FS& F = fs();
     bool wr = mode[0] == 'w' || mode[0] == 'a';
     std::shared_ptr<Inode> ino;
@@ -290,6 +308,7 @@ int fclose(FILE* f) {
     if (!real) real = (fclose_t)dlsym(RTLD_NEXT, "fclose");
     int fd = f ? fileno(f) : -1;
     if (fd >= 0 && fd < 65536 && g_is_sim[fd]) {
+        SIM_IGNORE;
         FS& F = fs();
         auto it = F.open_files.find(fd);
         if (it != F.open_files.end()) {
@@ -311,6 +330,7 @@ int fclose(FILE* f) {
 
 ssize_t write(int fd, const void* buf, size_t n) {
     if (fd >= 0 && fd < 65536 && g_is_sim[fd]) {
+        SIM_IGNORE;
         FS& F = fs();
         auto it = F.open_files.find(fd);
         if (it != F.open_files.end()) {
@@ -325,6 +345,7 @@ ssize_t write(int fd, const void* buf, size_t n) {
 
 ssize_t writev(int fd, const struct iovec* iov, int cnt) {
     if (fd >= 0 && fd < 65536 && g_is_sim[fd]) {
+        SIM_IGNORE;
         FS& F = fs();
         auto it = F.open_files.find(fd);
         if (it != F.open_files.end()) {
@@ -343,6 +364,7 @@ ssize_t writev(int fd, const struct iovec* iov, int cnt) {
 
 ssize_t read(int fd, void* buf, size_t n) {
     if (fd >= 0 && fd < 65536 && g_is_sim[fd]) {
+        SIM_IGNORE;
         FS& F = fs();
         auto it = F.open_files.find(fd);
         if (it != F.open_files.end()) {
@@ -357,6 +379,7 @@ ssize_t read(int fd, void* buf, size_t n) {
 
 int close(int fd) {
     if (fd >= 0 && fd < 65536 && g_is_sim[fd]) {
+        SIM_IGNORE;
         FS& F = fs();
         auto it = F.open_files.find(fd);
         if (it != F.open_files.end() && !it->second.is_stream) {
@@ -377,6 +400,7 @@ int close(int fd) {
 }
 
 static int sim_fstat_fill(int fd, struct stat* st) {
+    SIM_IGNORE;
     FS& F = fs();
     auto it = F.open_files.find(fd);
     if (it == F.open_files.end()) return -2;
@@ -406,6 +430,7 @@ int fstat64(int fd, struct stat64* st) { return fstat(fd, (struct stat*)st); }
 
 int rename(const char* from, const char* to) {
     if (is_sim_path(from) && is_sim_path(to)) {
+        SIM_IGNORE;
         FS& F = fs();
         Event e;
         e.kind = Ev::RENAME;
